@@ -80,11 +80,15 @@ class MutableStateMixin(BaseItemMixin):
             # Messages for item itself
             msgs.extend(MsgHelper.get_item_state_update_msgs(
                 self, old_state, new_state))
-            # Messages for all state-dependent child items
-            for child_item in self._child_item_iter():
+            # Messages for all state-dependent child items, and for their
+            # own child items (e.g. autocharges of a charge): state of all
+            # of them is state of this item
+            child_items = list(self._child_item_iter())
+            for child_item in child_items:
                 if isinstance(child_item, ContainerStateMixin):
                     msgs.extend(MsgHelper.get_item_state_update_msgs(
                         child_item, old_state, new_state))
+                    child_items.extend(child_item._child_item_iter())
             fit._publish_bulk(msgs)
 
 
